@@ -1,7 +1,16 @@
 //! C09 — Relational transactions are all-or-nothing and writers exclude each other.
 //!
-//! Real `RelationalEngine` with one tiny table `t(a INT hash-indexed, b INT
-//! ordered-indexed, c INT)`. Two layers, chosen per case:
+//! Real `RelationalEngine` with one to three tiny tables `t`, `u`, `w`, all with
+//! the columns `(a INT, b INT, c INT)`. Which kinds of index (hash, ordered,
+//! both, none) each column and the row-id pseudo column `_id` of each table
+//! has is part of the case (`Case::tables`); the single-table cases keep the
+//! original layout `t(a hash-indexed, b ordered-indexed, c plain)`. In the
+//! multi-table cases the same-named columns of two tables are indexed
+//! differently, and transactions as well as auto-commit statements span the
+//! tables. The reference model is per (table, row); every view (scan, every
+//! equality query on each hash-indexed column, every range query on each
+//! ordered-indexed column, the `_id` views) is compared for every table.
+//! Two layers, chosen per case:
 //!
 //! * `Mode::Stmt` — statement-level interleaving on one kernel thread: 2-4
 //!   transactions, each a program of tx_insert/tx_update/tx_delete/tx_select
@@ -58,6 +67,13 @@ use std::collections::{BTreeMap, BTreeSet, HashMap};
 use std::sync::{Arc, Mutex};
 
 const T: &str = "t";
+/// table names by table number (`tb` fields); table 0 is the original table
+const TABLES: [&str; 3] = ["t", "u", "w"];
+const COLS: [&str; 3] = ["a", "b", "c"];
+const HASH: u8 = 1;
+const ORDERED: u8 = 2;
+/// (table number, row id): row ids are per table
+type Rid = (u8, u64);
 const A_DOM: i64 = 4; // a in 0..4
 const B_DOM: i64 = 5; // b in 0..5
 const C_DOM: i64 = 3; // c in 0..3 (Stmt mode); tags >= 100 in Threads mode
@@ -77,6 +93,58 @@ pub enum Cond {
     Id(u64),
     /// a = x AND b <= y
     AEqBLe(i64, i64),
+    /// column (0 = a, 1 = b, 2 = c) compared with a constant
+    Col(u8, Op, i64),
+}
+
+#[derive(Serialize, Deserialize, Clone, Copy, Debug, PartialEq)]
+pub enum Op {
+    Eq,
+    Lt,
+    Le,
+    Gt,
+    Ge,
+}
+
+impl Op {
+    fn eval(self, l: i64, r: i64) -> bool {
+        match self {
+            Op::Eq => l == r,
+            Op::Lt => l < r,
+            Op::Le => l <= r,
+            Op::Gt => l > r,
+            Op::Ge => l >= r,
+        }
+    }
+    fn cond(self, col: &str, x: i64) -> Condition {
+        let (c, v) = (col.to_string(), Value::Int(x));
+        match self {
+            Op::Eq => Condition::Eq(c, v),
+            Op::Lt => Condition::Lt(c, v),
+            Op::Le => Condition::Le(c, v),
+            Op::Gt => Condition::Gt(c, v),
+            Op::Ge => Condition::Ge(c, v),
+        }
+    }
+    fn sym(self) -> &'static str {
+        match self {
+            Op::Eq => "=",
+            Op::Lt => "<",
+            Op::Le => "<=",
+            Op::Gt => ">",
+            Op::Ge => ">=",
+        }
+    }
+}
+
+/// Index kinds of one table (part of the case).
+#[derive(Serialize, Deserialize, Clone, Debug, PartialEq)]
+pub struct TableSpec {
+    /// per column a, b, c: bit 0 a hash index, bit 1 an ordered index
+    pub cols: [u8; 3],
+    /// the row-id pseudo column `_id`: same bits
+    #[serde(default)]
+    pub id_index: u8,
 }
 
 impl Cond {
@@ -92,6 +160,7 @@ impl Cond {
             Cond::GeB(x) => v[1] >= *x,
             Cond::Id(x) => id == *x,
             Cond::AEqBLe(x, y) => v[0] == *x && v[1] <= *y,
+            Cond::Col(c, op, x) => op.eval(v[*c as usize % 3], *x),
         }
     }
     fn to_engine(&self) -> Condition {
@@ -107,6 +176,7 @@ impl Cond {
             Cond::GeB(x) => Condition::Ge("b".into(), i(x)),
             Cond::Id(x) => Condition::Eq("_id".into(), Value::Int(*x as i64)),
             Cond::AEqBLe(x, y) => Condition::Eq("a".into(), i(x)).and(Condition::Le("b".into(), i(y))),
+            Cond::Col(c, op, x) => op.cond(COLS[*c as usize % 3], *x),
         }
     }
 }
@@ -143,8 +213,11 @@ impl Assign {
         }
         m
     }
-    fn touches_index(&self) -> bool {
-        self.a.is_some() || self.b.is_some()
+    fn cols(&self) -> [bool; 3] {
+        [self.a.is_some(), self.b.is_some(), self.c.is_some()]
+    }
+    fn touches_index(&self, spec: &TableSpec) -> bool {
+        self.cols().iter().zip(spec.cols.iter()).any(|(set, kinds)| *set && *kinds != 0)
     }
 }
 
@@ -159,15 +232,50 @@ fn vals_map(v: &Vals) -> HashMap<String, Value> {
 #[derive(Serialize, Deserialize, Clone, Debug, PartialEq)]
 pub enum Step {
     Begin { t: u8 },
-    TxInsert { t: u8, v: Vals },
-    TxUpdate { t: u8, cond: Cond, set: Assign },
-    TxDelete { t: u8, cond: Cond },
-    TxSelect { t: u8, cond: Cond },
+    // `tb`: table number (index into `TABLES`; numbers the case has no table for act on table 0)
+    TxInsert {
+        t: u8,
+        #[serde(default)]
+        tb: u8,
+        v: Vals,
+    },
+    TxUpdate {
+        t: u8,
+        #[serde(default)]
+        tb: u8,
+        cond: Cond,
+        set: Assign,
+    },
+    TxDelete {
+        t: u8,
+        #[serde(default)]
+        tb: u8,
+        cond: Cond,
+    },
+    TxSelect {
+        t: u8,
+        #[serde(default)]
+        tb: u8,
+        cond: Cond,
+    },
     Commit { t: u8 },
     Rollback { t: u8 },
-    Insert { v: Vals },
-    Update { cond: Cond, set: Assign },
-    Delete { cond: Cond },
+    Insert {
+        #[serde(default)]
+        tb: u8,
+        v: Vals,
+    },
+    Update {
+        #[serde(default)]
+        tb: u8,
+        cond: Cond,
+        set: Assign,
+    },
+    Delete {
+        #[serde(default)]
+        tb: u8,
+        cond: Cond,
+    },
     /// advance both simulated clocks by `ms`
     Advance { ms: u64 },
     /// `tx_manager().cleanup_expired_locks()`
@@ -178,9 +286,22 @@ pub enum Step {
 
 #[derive(Serialize, Deserialize, Clone, Debug, PartialEq)]
 pub enum TStmt {
-    Insert { v: Vals },
-    Update { cond: Cond, set: Assign },
-    Delete { cond: Cond },
+    Insert {
+        #[serde(default)]
+        tb: u8,
+        v: Vals,
+    },
+    Update {
+        #[serde(default)]
+        tb: u8,
+        cond: Cond,
+        set: Assign,
+    },
+    Delete {
+        #[serde(default)]
+        tb: u8,
+        cond: Cond,
+    },
 }
 
 #[derive(Serialize, Deserialize, Clone, Debug, PartialEq)]
@@ -229,6 +350,37 @@ pub struct Case {
     /// ordered index (the latter only together with the default `max_btree`)
     #[serde(default)]
     pub id_index: u8,
+    /// the tables of the case and their index kinds. Empty (older replay files,
+    /// single-table cases): one table `t` with a hash index on a, an ordered
+    /// index on b and `id_index` on `_id`
+    #[serde(default)]
+    pub tables: Vec<TableSpec>,
+    /// initial rows of the tables 1.. (`init` are the rows of table 0)
+    #[serde(default)]
+    pub init_more: Vec<Vec<Vals>>,
+}
+
+impl Case {
+    fn specs(&self) -> Vec<TableSpec> {
+        if self.tables.is_empty() {
+            vec![TableSpec { cols: [HASH, ORDERED, 0], id_index: self.id_index }]
+        } else {
+            self.tables.iter().take(TABLES.len()).cloned().collect()
+        }
+    }
+}
+
+/// table number of a step -> a table the case has
+fn tbn(tb: u8, specs: &[TableSpec]) -> u8 {
+    if (tb as usize) < specs.len() {
+        tb
+    } else {
+        0
+    }
+}
+
+fn rid(k: &Rid) -> String {
+    format!("{}#{}", TABLES[k.0 as usize], k.1)
 }
 
 pub struct C09;
@@ -269,7 +421,7 @@ struct MTx {
     ended_at: Option<u64>,
     /// global event counter value when the transaction began
     began_at: u64,
-    wrote: BTreeSet<u64>,
+    wrote: BTreeSet<Rid>,
     /// wrote a row that another transaction, live at the same time, also wrote
     /// (possible only after a lock timed out and the row was taken over)
     shared: bool,
@@ -290,10 +442,10 @@ struct Ev {
 
 #[derive(Default)]
 struct Model {
-    hist: BTreeMap<u64, Vec<Ev>>,
+    hist: BTreeMap<Rid, Vec<Ev>>,
     txs: Vec<MTx>,
     /// row -> (tx, acquired at ms)
-    locks: BTreeMap<u64, (usize, u64)>,
+    locks: BTreeMap<Rid, (usize, u64)>,
     now_ms: u64,
     seq: u64,
     lock_to_ms: u64,
@@ -310,7 +462,7 @@ impl Model {
         self.txs.push(MTx { st: St::Live, started_ms: self.now_ms, ended_at: None, began_at: self.seq, wrote: BTreeSet::new(), shared: false, failed: BTreeSet::new(), dirty: false });
         self.txs.len() - 1
     }
-    fn value(&self, id: u64) -> Option<Vals> {
+    fn value(&self, id: Rid) -> Option<Vals> {
         let mut cur: Option<Vals> = None;
         for e in self.hist.get(&id)? {
             if self.txs[e.tx].st == St::RolledBack {
@@ -328,10 +480,18 @@ impl Model {
         }
         cur
     }
-    fn visible(&self) -> BTreeMap<u64, Vals> {
+    fn visible(&self) -> BTreeMap<Rid, Vals> {
         self.hist.keys().filter_map(|id| self.value(*id).map(|v| (*id, v))).collect()
     }
-    fn push(&mut self, id: u64, tx: usize, eff: Eff) {
+    /// the visible rows of one table
+    fn visible_tb(&self, tb: u8) -> BTreeMap<u64, Vals> {
+        self.hist.range((tb, 0)..=(tb, u64::MAX)).filter_map(|(id, _)| self.value(*id).map(|v| (id.1, v))).collect()
+    }
+    /// highest row id the table has ever had
+    fn max_id(&self, tb: u8) -> u64 {
+        self.hist.range((tb, 0)..=(tb, u64::MAX)).next_back().map_or(0, |(id, _)| id.1)
+    }
+    fn push(&mut self, id: Rid, tx: usize, eff: Eff) {
         self.seq += 1;
         let at = self.seq;
         self.hist.entry(id).or_default().push(Ev { tx, eff, at });
@@ -343,7 +503,7 @@ impl Model {
         self.txs[tx].ended_at = Some(self.seq);
         self.locks.retain(|_, (h, _)| *h != tx);
     }
-    fn lock_live(&self, id: u64) -> Option<usize> {
+    fn lock_live(&self, id: Rid) -> Option<usize> {
         match self.locks.get(&id) {
             Some((h, acq)) if self.now_ms - *acq <= self.lock_to_ms => Some(*h),
             _ => None,
@@ -351,7 +511,7 @@ impl Model {
     }
     /// `tx` is about to write row `id`: flag it and every other live transaction
     /// that wrote the row as sharing a row
-    fn mark_shared(&mut self, id: u64, tx: usize) -> bool {
+    fn mark_shared(&mut self, id: Rid, tx: usize) -> bool {
         let others: Vec<usize> = self.hist.get(&id).map(|evs| evs.iter().filter(|e| e.tx != tx && self.txs[e.tx].st == St::Live).map(|e| e.tx).collect()).unwrap_or_default();
         for o in &others {
             self.txs[*o].shared = true;
@@ -363,7 +523,7 @@ impl Model {
         self.txs[tx].shared
     }
     /// last effect of a live foreign transaction on the row (for class names)
-    fn holder_effect(&self, id: u64, holder: usize) -> &'static str {
+    fn holder_effect(&self, id: Rid, holder: usize) -> &'static str {
         self.hist.get(&id).and_then(|evs| evs.iter().rev().find(|e| e.tx == holder)).map_or("locked", |e| e.eff.name())
     }
 }
@@ -379,18 +539,21 @@ fn mk_engine(case: &Case) -> Result<RelationalEngine, String> {
         cfg = cfg.with_max_condition_depth(d as usize);
     }
     let e = RelationalEngine::with_config(cfg);
-    let schema = Schema::new(vec![Column::new("a", ColumnType::Int), Column::new("b", ColumnType::Int), Column::new("c", ColumnType::Int)]);
-    e.create_table(T, schema).map_err(|x| format!("create_table: {x}"))?;
-    e.create_index(T, "a").map_err(|x| format!("create_index: {x}"))?;
-    e.create_btree_index(T, "b").map_err(|x| format!("create_btree_index: {x}"))?;
-    if !e.has_index(T, "a") || !e.has_btree_index(T, "b") {
-        return Err("indexes not registered".into());
-    }
-    if case.id_index & 1 != 0 {
-        e.create_index(T, "_id").map_err(|x| format!("create_index _id: {x}"))?;
-    }
-    if case.id_index & 2 != 0 {
-        e.create_btree_index(T, "_id").map_err(|x| format!("create_btree_index _id: {x}"))?;
+    for (tb, spec) in case.specs().iter().enumerate() {
+        let t = TABLES[tb];
+        let schema = Schema::new(vec![Column::new("a", ColumnType::Int), Column::new("b", ColumnType::Int), Column::new("c", ColumnType::Int)]);
+        e.create_table(t, schema).map_err(|x| format!("create_table {t}: {x}"))?;
+        for (col, kinds) in COLS.iter().copied().zip(spec.cols.iter().copied()).chain(std::iter::once(("_id", spec.id_index))) {
+            if kinds & HASH != 0 {
+                e.create_index(t, col).map_err(|x| format!("create_index {t}.{col}: {x}"))?;
+            }
+            if kinds & ORDERED != 0 {
+                e.create_btree_index(t, col).map_err(|x| format!("create_btree_index {t}.{col}: {x}"))?;
+            }
+            if e.has_index(t, col) != (kinds & HASH != 0) || e.has_btree_index(t, col) != (kinds & ORDERED != 0) {
+                return Err(format!("indexes of {t}.{col} not registered as configured"));
+            }
+        }
     }
     Ok(e)
 }
@@ -405,8 +568,9 @@ fn row_vals(r: &relational_engine::Row) -> Result<Vals, String> {
 
 /// rows of a select as id -> values, plus the id of a row the engine returned
 /// more than once (a query answer must list a row once)
-fn sel(e: &RelationalEngine, c: &Cond) -> Result<(BTreeMap<u64, Vals>, Option<u64>), String> {
-    let rows = e.select(T, c.to_engine()).map_err(|x| format!("select {c:?}: {x}"))?;
+fn sel(e: &RelationalEngine, tb: u8, c: &Cond) -> Result<(BTreeMap<u64, Vals>, Option<u64>), String> {
+    let t = TABLES[tb as usize];
+    let rows = e.select(t, c.to_engine()).map_err(|x| format!("select {c:?} from {t}: {x}"))?;
     let mut m = BTreeMap::new();
     let mut dup = None;
     for r in &rows {
@@ -422,41 +586,63 @@ fn fmt_rows(m: &BTreeMap<u64, Vals>) -> String {
     format!("[{}]", v.join(" "))
 }
 
-/// Compare the full observable state with `exp`: the table by scan, every
-/// equality query on the hash-indexed column, every range query on the
-/// ordered-indexed column. Returns (view name, detail) of the first difference.
-fn compare_views(e: &RelationalEngine, exp: &BTreeMap<u64, Vals>, scan_only: bool) -> Result<Option<(&'static str, String)>, String> {
-    let (scan, dup) = sel(e, &Cond::True)?;
+/// Compare the full observable state of table `tb` with `exp`: the table by
+/// scan, every equality query on each hash-indexed column, every range query on
+/// each ordered-indexed column, the `_id` views ("every table, and every query
+/// answered through an index"). `extra_c`: further constants to ask column c for
+/// (the Threads layer writes tags into c). Returns (view name, detail) of the
+/// first difference.
+fn compare_views(e: &RelationalEngine, tb: u8, spec: &TableSpec, exp: &BTreeMap<u64, Vals>, scan_only: bool, extra_c: &[i64]) -> Result<Option<(&'static str, String)>, String> {
+    let t = TABLES[tb as usize];
+    let (scan, dup) = sel(e, tb, &Cond::True)?;
     if let Some(id) = dup {
-        return Ok(Some(("scan:duplicate-row", format!("full select returns row #{id} more than once"))));
+        return Ok(Some(("scan:duplicate-row", format!("full select from {t} returns row #{id} more than once"))));
     }
     if &scan != exp {
-        return Ok(Some(("scan", format!("full select returns {} expected {}", fmt_rows(&scan), fmt_rows(exp)))));
+        return Ok(Some(("scan", format!("full select from {t} returns {} expected {}", fmt_rows(&scan), fmt_rows(exp)))));
     }
     if scan_only {
         return Ok(None);
     }
     let filt = |c: &Cond| -> BTreeMap<u64, Vals> { exp.iter().filter(|(id, v)| c.eval(**id, v)).map(|(i, v)| (*i, *v)).collect() };
-    for x in 0..=A_DOM {
-        let c = Cond::EqA(x);
-        let (got, dup) = sel(e, &c)?;
-        if let Some(id) = dup {
-            return Ok(Some(("hash-index:duplicate-row", format!("select a={x} (hash index) returns row #{id} more than once; table is {}", fmt_rows(exp)))));
+    for col in 0..3u8 {
+        let kinds = spec.cols[col as usize];
+        if kinds == 0 {
+            continue;
         }
-        let want = filt(&c);
-        if got != want {
-            return Ok(Some(("hash-index", format!("select a={x} (hash index) returns {} expected {}; table is {}", fmt_rows(&got), fmt_rows(&want), fmt_rows(exp)))));
+        let name = COLS[col as usize];
+        let mut xs: BTreeSet<i64> = (0..=[A_DOM, B_DOM, C_DOM][col as usize]).collect();
+        xs.extend(exp.values().map(|v| v[col as usize]));
+        if col == 2 {
+            xs.extend(extra_c.iter().copied());
         }
-    }
-    for x in 0..=B_DOM {
-        for c in [Cond::LtB(x), Cond::LeB(x), Cond::GtB(x), Cond::GeB(x)] {
-            let (got, dup) = sel(e, &c)?;
-            if let Some(id) = dup {
-                return Ok(Some(("ordered-index:duplicate-row", format!("select {c:?} (ordered index) returns row #{id} more than once (it is listed under two keys of the index); table is {}", fmt_rows(exp)))));
+        if kinds & HASH != 0 {
+            for x in &xs {
+                let c = Cond::Col(col, Op::Eq, *x);
+                let (got, dup) = sel(e, tb, &c)?;
+                if let Some(id) = dup {
+                    return Ok(Some(("hash-index:duplicate-row", format!("select {name}={x} from {t} (hash index) returns row #{id} more than once; table is {}", fmt_rows(exp)))));
+                }
+                let want = filt(&c);
+                if got != want {
+                    return Ok(Some(("hash-index", format!("select {name}={x} from {t} (hash index) returns {} expected {}; table is {}", fmt_rows(&got), fmt_rows(&want), fmt_rows(exp)))));
+                }
             }
-            let want = filt(&c);
-            if got != want {
-                return Ok(Some(("ordered-index", format!("select {c:?} (ordered index) returns {} expected {}; table is {}", fmt_rows(&got), fmt_rows(&want), fmt_rows(exp)))));
+        }
+        if kinds & ORDERED != 0 {
+            for x in &xs {
+                for op in [Op::Lt, Op::Le, Op::Gt, Op::Ge] {
+                    let c = Cond::Col(col, op, *x);
+                    let sym = op.sym();
+                    let (got, dup) = sel(e, tb, &c)?;
+                    if let Some(id) = dup {
+                        return Ok(Some(("ordered-index:duplicate-row", format!("select {name}{sym}{x} from {t} (ordered index) returns row #{id} more than once (it is listed under two keys of the index); table is {}", fmt_rows(exp)))));
+                    }
+                    let want = filt(&c);
+                    if got != want {
+                        return Ok(Some(("ordered-index", format!("select {name}{sym}{x} from {t} (ordered index) returns {} expected {}; table is {}", fmt_rows(&got), fmt_rows(&want), fmt_rows(exp)))));
+                    }
+                }
             }
         }
     }
@@ -464,25 +650,35 @@ fn compare_views(e: &RelationalEngine, exp: &BTreeMap<u64, Vals>, scan_only: boo
     let max_id = exp.keys().next_back().copied().unwrap_or(0) + 2;
     for id in 1..=max_id {
         let c = Cond::Id(id);
-        let (got, _) = sel(e, &c)?;
+        let (got, _) = sel(e, tb, &c)?;
         let want = filt(&c);
         if got != want {
-            return Ok(Some(("id-lookup", format!("select _id={id} returns {} expected {}; table is {}", fmt_rows(&got), fmt_rows(&want), fmt_rows(exp)))));
+            return Ok(Some(("id-lookup", format!("select _id={id} from {t} returns {} expected {}; table is {}", fmt_rows(&got), fmt_rows(&want), fmt_rows(exp)))));
         }
     }
-    if e.has_btree_index(T, "_id") {
+    if e.has_btree_index(t, "_id") {
         for id in 0..=max_id {
             for (name, cond) in [("<=", Condition::Le("_id".into(), Value::Int(id as i64))), (">", Condition::Gt("_id".into(), Value::Int(id as i64)))] {
-                let rows = e.select(T, cond).map_err(|x| format!("select _id {name} {id}: {x}"))?;
+                let rows = e.select(t, cond).map_err(|x| format!("select _id {name} {id} from {t}: {x}"))?;
                 let mut got = BTreeMap::new();
                 for r in &rows {
                     got.insert(r.id, row_vals(r)?);
                 }
                 let want: BTreeMap<u64, Vals> = exp.iter().filter(|(i, _)| if name == "<=" { **i <= id } else { **i > id }).map(|(i, v)| (*i, *v)).collect();
                 if got != want || rows.len() != got.len() {
-                    return Ok(Some(("id-ordered-index", format!("select _id {name} {id} (ordered index) returns {} expected {}; table is {}", fmt_rows(&got), fmt_rows(&want), fmt_rows(exp)))));
+                    return Ok(Some(("id-ordered-index", format!("select _id {name} {id} from {t} (ordered index) returns {} expected {}; table is {}", fmt_rows(&got), fmt_rows(&want), fmt_rows(exp)))));
                 }
             }
+        }
+    }
+    Ok(None)
+}
+
+/// `compare_views` over every table of the case, first difference
+fn compare_all(e: &RelationalEngine, specs: &[TableSpec], m: &Model, scan_only: bool, extra_c: &[i64]) -> Result<Option<(&'static str, String)>, String> {
+    for (tb, spec) in specs.iter().enumerate() {
+        if let Some(d) = compare_views(e, tb as u8, spec, &m.visible_tb(tb as u8), scan_only, extra_c)? {
+            return Ok(Some(d));
         }
     }
     Ok(None)
@@ -546,6 +742,7 @@ struct StmtRun<'a> {
     ctx: &'a Arc<RunCtx>,
     case: &'a Case,
     e: RelationalEngine,
+    specs: Vec<TableSpec>,
     m: Model,
     /// slot -> (engine tx id, model tx)
     slots: BTreeMap<u8, (u64, usize)>,
@@ -561,14 +758,16 @@ impl<'a> StmtRun<'a> {
     /// the property clause under "lock residue": when T ends or its lock times
     /// out ... active_lock_count / is_row_locked show no residue
     fn check_locks(&self, after: &str) -> Option<Violation> {
-        let max_id = self.m.hist.keys().next_back().copied().unwrap_or(0);
-        for id in 1..=max_id + 1 {
-            if self.m.lock_live(id).is_none() && self.e.tx_manager().is_row_locked(T, id) {
-                let why = if self.m.locks.contains_key(&id) { "lock-timed-out" } else { "holder-ended-or-never-locked" };
-                return Some(viol(
-                    format!("lock-residue:is_row_locked:{why}"),
-                    format!("after {after}: is_row_locked(row #{id}) is true but no live transaction holds an unexpired lock on it"),
-                ));
+        for tb in 0..self.specs.len() as u8 {
+            for id in 1..=self.m.max_id(tb) + 1 {
+                let k = (tb, id);
+                if self.m.lock_live(k).is_none() && self.e.tx_manager().is_row_locked(TABLES[tb as usize], id) {
+                    let why = if self.m.locks.contains_key(&k) { "lock-timed-out" } else { "holder-ended-or-never-locked" };
+                    return Some(viol(
+                        format!("lock-residue:is_row_locked:{why}"),
+                        format!("after {after}: is_row_locked(row {}) is true but no live transaction holds an unexpired lock on it", rid(&k)),
+                    ));
+                }
             }
         }
         let n = self.e.tx_manager().active_lock_count();
@@ -582,11 +781,10 @@ impl<'a> StmtRun<'a> {
     }
 
     fn check_state(&self, after: &str, suffix: &str) -> Result<Option<Violation>, String> {
-        let exp = self.m.visible();
         // index entries left behind by a statement that failed half-way are judged when
-        // its transaction ends (see absorb_failed); until then only the table is compared
+        // its transaction ends (see absorb_failed); until then only the tables are compared
         let scan_only = self.m.index_unreliable || self.m.txs.iter().any(|t| t.st == St::Live && t.dirty);
-        if let Some((view, d)) = compare_views(&self.e, &exp, scan_only)? {
+        if let Some((view, d)) = compare_all(&self.e, &self.specs, &self.m, scan_only, &[])? {
             // one class for every view when the transaction lost a row lock to another
             // transaction before it ended (lock timed out and was taken over)
             let class = if suffix.is_empty() { format!("state-mismatch:after-{after}:{view}") } else { format!("state-mismatch:after-{after}{suffix}") };
@@ -596,16 +794,17 @@ impl<'a> StmtRun<'a> {
     }
 
     /// update/delete by model tx `mt` (engine outcome `out`)
-    fn judge_write(&mut self, who: &str, mt: usize, cond: &Cond, kind: &Kind, out: &Out) -> Option<Violation> {
-        let vis = self.m.visible();
-        let matched: Vec<u64> = vis.iter().filter(|(id, v)| cond.eval(**id, v)).map(|(i, _)| *i).collect();
+    fn judge_write(&mut self, who: &str, mt: usize, tb: u8, cond: &Cond, kind: &Kind, out: &Out) -> Option<Violation> {
+        let vis = self.m.visible_tb(tb);
+        let matched: Vec<Rid> = vis.iter().filter(|(id, v)| cond.eval(**id, v)).map(|(i, _)| (tb, *i)).collect();
+        let tname = TABLES[tb as usize];
         let op = match kind {
             Kind::Update(_) => "update",
             Kind::Delete => "delete",
         };
         // "While a transaction has modified a row, no other transaction can modify or
         // delete that row: it receives a lock-conflict error instead"
-        let mut blocker: Option<(u64, usize)> = None;
+        let mut blocker: Option<(Rid, usize)> = None;
         for id in &matched {
             if let Some(h) = self.m.lock_live(*id) {
                 if h != mt {
@@ -631,7 +830,7 @@ impl<'a> StmtRun<'a> {
                 let eff = self.m.holder_effect(id, h);
                 Some(viol(
                     format!("missing-lock-conflict:{op}-of-row-{eff}-by-live-tx"),
-                    format!("{who} {op} {cond:?} succeeded although row #{id} was {eff} by another transaction that is still live and whose lock has not timed out"),
+                    format!("{who} {op} {tname} {cond:?} succeeded although row {} was {eff} by another transaction that is still live and whose lock has not timed out", rid(&id)),
                 ))
             },
             (None, Out::Conflict) => {
@@ -639,7 +838,7 @@ impl<'a> StmtRun<'a> {
                 let why = if matched.iter().any(|id| self.m.locks.contains_key(id)) { "lock-timed-out" } else { "no-live-holder" };
                 Some(viol(
                     format!("spurious-lock-conflict:{why}"),
-                    format!("{who} {op} {cond:?} got a lock conflict although no matched row {matched:?} is held by a live transaction with an unexpired lock"),
+                    format!("{who} {op} {tname} {cond:?} got a lock conflict although no matched row {matched:?} is held by a live transaction with an unexpired lock"),
                 ))
             },
             (None, Out::Ok(n)) => {
@@ -661,7 +860,7 @@ impl<'a> StmtRun<'a> {
                 if *n != matched.len() {
                     return Some(viol(
                         format!("stmt-count-mismatch:{op}"),
-                        format!("{who} {op} {cond:?} returned {n} but {} rows match ({matched:?})", matched.len()),
+                        format!("{who} {op} {tname} {cond:?} returned {n} but {} rows match ({matched:?})", matched.len()),
                     ));
                 }
                 None
@@ -669,7 +868,7 @@ impl<'a> StmtRun<'a> {
             (_, Out::NoTx) => Some(viol(format!("live-tx-rejected:{op}"), format!("{who} {op}: the engine does not know this live transaction"))),
             (b, Out::Fail(kind, e)) => {
                 if !self.knob_set(*kind) {
-                    return Some(viol(format!("unexpected-error:{op}"), format!("{who} {op} {cond:?}: {e}")));
+                    return Some(viol(format!("unexpected-error:{op}"), format!("{who} {op} {tname} {cond:?}: {e}")));
                 }
                 // "it receives a lock-conflict error instead": an index limit is reached only
                 // while rows are being changed, i.e. the statement went past the lock check
@@ -677,13 +876,13 @@ impl<'a> StmtRun<'a> {
                     let eff = self.m.holder_effect(id, h);
                     return Some(viol(
                         format!("missing-lock-conflict:{op}-of-row-{eff}-by-live-tx"),
-                        format!("{who} {op} {cond:?} started changing rows (and failed with: {e}) although row #{id} was {eff} by another transaction that is still live and whose lock has not timed out"),
+                        format!("{who} {op} {tname} {cond:?} started changing rows (and failed with: {e}) although row {} was {eff} by another transaction that is still live and whose lock has not timed out", rid(&id)),
                     ));
                 }
                 // what the failed statement left behind is absorbed by the caller (absorb_failed)
                 None
             },
-            (_, Out::Other(e)) => Some(viol(format!("unexpected-error:{op}"), format!("{who} {op} {cond:?}: {e}"))),
+            (_, Out::Other(e)) => Some(viol(format!("unexpected-error:{op}"), format!("{who} {op} {tname} {cond:?}: {e}"))),
         }
     }
 
@@ -704,10 +903,14 @@ impl<'a> StmtRun<'a> {
     /// observed through `row_lock_holder`, and index entries that now disagree
     /// with the table mark the transaction `dirty` (index views are compared
     /// again when it ends).
-    fn absorb_failed(&mut self, i: usize, who: &str, mt: usize, tx: u64, op: &'static str, kind: FailKind, cond: Option<&Cond>) -> Result<(), String> {
+    fn absorb_failed(&mut self, i: usize, who: &str, mt: usize, tx: u64, tb: u8, op: &'static str, kind: FailKind, cond: Option<&Cond>) -> Result<(), String> {
         self.ctx.probe("stmt_failed");
-        let before = self.m.visible();
-        let (scan, _) = sel(&self.e, &Cond::True)?;
+        // the statement's own table (any trace in another table shows up as a table
+        // mismatch in the state check that follows)
+        let tname = TABLES[tb as usize];
+        let tshow = if self.specs.len() > 1 { format!("{tname} ") } else { String::new() };
+        let before = self.m.visible_tb(tb);
+        let (scan, _) = sel(&self.e, tb, &Cond::True)?;
         let mut touched: BTreeSet<u64> = match cond {
             Some(c) => before.iter().filter(|(id, v)| c.eval(**id, v)).map(|(id, _)| *id).collect(),
             None => BTreeSet::new(),
@@ -723,11 +926,12 @@ impl<'a> StmtRun<'a> {
             };
             changed += 1;
             touched.insert(id);
-            self.m.mark_shared(id, mt);
-            self.m.push(id, mt, eff);
+            self.m.mark_shared((tb, id), mt);
+            self.m.push((tb, id), mt, eff);
         }
         for id in &touched {
-            if self.e.tx_manager().row_lock_holder(T, *id) == Some(tx) && kind == FailKind::Limit {
+            if self.e.tx_manager().row_lock_holder(tname, *id) == Some(tx) && kind == FailKind::Limit {
+                let id = &(tb, *id);
                 self.m.locks.insert(*id, (mt, self.m.now_ms));
                 // the statement locked the row and may hold an undo image of it although the
                 // table row is unchanged: the row counts as written by `mt` (a later takeover
@@ -741,14 +945,14 @@ impl<'a> StmtRun<'a> {
         // a failed insert takes its row back out; the lock it took on the new row id
         // (ids are never reused) stays with the live transaction until that ends,
         // like the lock on any row a statement locked and then left unchanged
-        let max_id = self.m.hist.keys().next_back().copied().unwrap_or(0).max(scan.keys().next_back().copied().unwrap_or(0));
+        let max_id = self.m.max_id(tb).max(scan.keys().next_back().copied().unwrap_or(0));
         for id in 1..=max_id + 16 {
-            if !touched.contains(&id) && !self.m.locks.contains_key(&id) && self.e.tx_manager().row_lock_holder(T, id) == Some(tx) {
-                self.m.locks.insert(id, (mt, self.m.now_ms));
+            if !touched.contains(&id) && !self.m.locks.contains_key(&(tb, id)) && self.e.tx_manager().row_lock_holder(tname, id) == Some(tx) {
+                self.m.locks.insert((tb, id), (mt, self.m.now_ms));
                 self.ctx.probe("failed_stmt_keeps_lock_on_absent_row");
             }
         }
-        let dirty = compare_views(&self.e, &self.m.visible(), false)?.is_some();
+        let dirty = compare_all(&self.e, &self.specs, &self.m, false, &[])?.is_some();
         if dirty {
             self.m.txs[mt].dirty = true;
             self.ctx.probe("failed_stmt_left_index_inconsistent");
@@ -765,8 +969,34 @@ impl<'a> StmtRun<'a> {
             self.m.txs[mt].failed.insert(op);
         }
         self.ctx.fp(&format!("failed:{op}:{}:{}", changed.min(2), dirty));
-        self.ctx.event(&format!("{i} {who} {op} failed ({kind:?}): {changed} table rows changed, index views {}", if dirty { "disagree with the table" } else { "agree with the table" }));
+        self.ctx.event(&format!("{i} {who} {op} {tshow}failed ({kind:?}): {changed} table rows changed, index views {}", if dirty { "disagree with the table" } else { "agree with the table" }));
         Ok(())
+    }
+
+    /// Does transaction `mt` span tables: (it wrote rows of two tables; it updated or
+    /// deleted, in two tables, a same-named column that the two tables index differently)
+    fn span(&self, mt: usize) -> (bool, bool) {
+        // per table: columns a, b, c, _id whose index entries the transaction's updates / deletes changed
+        let mut cols: BTreeMap<u8, [bool; 4]> = BTreeMap::new();
+        let mut tables: BTreeSet<u8> = BTreeSet::new();
+        for id in &self.m.txs[mt].wrote {
+            tables.insert(id.0);
+            for e in self.m.hist[id].iter().filter(|e| e.tx == mt) {
+                let c = cols.entry(id.0).or_insert([false; 4]);
+                match &e.eff {
+                    Eff::Set(s) => {
+                        for (k, set) in s.cols().iter().enumerate() {
+                            c[k] |= *set;
+                        }
+                    },
+                    Eff::Del => *c = [true; 4],
+                    Eff::Ins(_) => {},
+                }
+            }
+        }
+        let kinds = |tb: u8, k: usize| if k < 3 { self.specs[tb as usize].cols[k] } else { self.specs[tb as usize].id_index };
+        let diff = cols.iter().any(|(t1, c1)| cols.iter().any(|(t2, c2)| t1 < t2 && (0..4).any(|k| c1[k] && c2[k] && kinds(*t1, k) != kinds(*t2, k))));
+        (tables.len() >= 2, diff)
     }
 
     /// class suffix for the state check at the end of transaction `mt`
@@ -791,8 +1021,16 @@ impl<'a> StmtRun<'a> {
         self.ctx.event("init");
         let init = self.case.init.clone();
         for (k, v) in init.iter().enumerate() {
-            if let Some(v) = self.step(k, &Step::Insert { v: *v })? {
+            if let Some(v) = self.step(k, &Step::Insert { tb: 0, v: *v })? {
                 return Ok(Some(v));
+            }
+        }
+        let more = self.case.init_more.clone();
+        for (tb, rows) in more.iter().enumerate().take(self.specs.len().saturating_sub(1)) {
+            for (k, v) in rows.iter().enumerate() {
+                if let Some(v) = self.step(k, &Step::Insert { tb: tb as u8 + 1, v: *v })? {
+                    return Ok(Some(v));
+                }
             }
         }
         self.ctx.event("steps");
@@ -869,6 +1107,17 @@ impl<'a> StmtRun<'a> {
         }
         let mut after = "tx-stmt";
         let mut suffix = String::new();
+        // the table of a statement step
+        let tb = match st {
+            Step::TxInsert { tb, .. } | Step::TxUpdate { tb, .. } | Step::TxDelete { tb, .. } | Step::TxSelect { tb, .. } | Step::Insert { tb, .. } | Step::Update { tb, .. } | Step::Delete { tb, .. } => tbn(*tb, &self.specs),
+            _ => 0,
+        };
+        let tname = TABLES[tb as usize];
+        // event logs of single-table cases stay those of the older replay files
+        let tshow = if self.specs.len() > 1 { format!("{tname} ") } else { String::new() };
+        if tb > 0 {
+            ctx.probe("stmt_on_further_table");
+        }
         match st {
             Step::Begin { t } => {
                 if self.slots.contains_key(t) {
@@ -888,10 +1137,10 @@ impl<'a> StmtRun<'a> {
                     // "Finished transactions cannot be used again."
                     let before = self.m.visible();
                     let (name, out) = match st {
-                        Step::TxInsert { v, .. } => ("tx_insert", classify(self.e.tx_insert(tx, T, vals_map(v)), |_| 1)),
-                        Step::TxUpdate { cond, set, .. } => ("tx_update", classify(self.e.tx_update(tx, T, cond.to_engine(), set.to_engine()), |n| *n)),
-                        Step::TxDelete { cond, .. } => ("tx_delete", classify(self.e.tx_delete(tx, T, cond.to_engine()), |n| *n)),
-                        Step::TxSelect { cond, .. } => ("tx_select", classify(self.e.tx_select(tx, T, cond.to_engine()), Vec::len)),
+                        Step::TxInsert { v, .. } => ("tx_insert", classify(self.e.tx_insert(tx, tname, vals_map(v)), |_| 1)),
+                        Step::TxUpdate { cond, set, .. } => ("tx_update", classify(self.e.tx_update(tx, tname, cond.to_engine(), set.to_engine()), |n| *n)),
+                        Step::TxDelete { cond, .. } => ("tx_delete", classify(self.e.tx_delete(tx, tname, cond.to_engine()), |n| *n)),
+                        Step::TxSelect { cond, .. } => ("tx_select", classify(self.e.tx_select(tx, tname, cond.to_engine()), Vec::len)),
                         Step::Commit { .. } => ("commit", classify(self.e.commit(tx), |_| 0)),
                         _ => ("rollback", classify(self.e.rollback(tx), |_| 0)),
                     };
@@ -905,65 +1154,65 @@ impl<'a> StmtRun<'a> {
                 } else {
                     match st {
                         Step::TxInsert { v, .. } => {
-                            let r = self.e.tx_insert(tx, T, vals_map(v));
+                            let r = self.e.tx_insert(tx, tname, vals_map(v));
                             match r {
                                 Ok(id) => {
-                                    ctx.event(&format!("{i} {who} insert {v:?} -> #{id}"));
-                                    if self.m.hist.contains_key(&id) {
-                                        return Ok(Some(viol("row-id-reused", format!("step {i}: tx_insert returned row id #{id} which already identifies another row"))));
+                                    ctx.event(&format!("{i} {who} insert {tshow}{v:?} -> #{id}"));
+                                    if self.m.hist.contains_key(&(tb, id)) {
+                                        return Ok(Some(viol("row-id-reused", format!("step {i}: tx_insert into {tname} returned row id #{id} which already identifies another row"))));
                                     }
-                                    self.m.push(id, mt, Eff::Ins(*v));
+                                    self.m.push((tb, id), mt, Eff::Ins(*v));
                                     if !self.case.lenient_insert {
-                                        self.m.locks.insert(id, (mt, self.m.now_ms));
+                                        self.m.locks.insert((tb, id), (mt, self.m.now_ms));
                                     }
                                 },
                                 Err(e) => match classify::<u64>(Err(e), |_| 1) {
                                     Out::Fail(kind, msg) if self.knob_set(kind) => {
-                                        ctx.event(&format!("{i} {who} insert {v:?} -> Fail({kind:?})"));
+                                        ctx.event(&format!("{i} {who} insert {tshow}{v:?} -> Fail({kind:?})"));
                                         let _ = msg;
-                                        self.absorb_failed(i, &who, mt, tx, "insert", kind, None)?;
+                                        self.absorb_failed(i, &who, mt, tx, tb, "insert", kind, None)?;
                                         after = "failed-stmt";
                                     },
-                                    out => return Ok(Some(viol("unexpected-error:insert", format!("step {i}: {who} tx_insert {v:?}: {out:?}")))),
+                                    out => return Ok(Some(viol("unexpected-error:insert", format!("step {i}: {who} tx_insert {tname} {v:?}: {out:?}")))),
                                 },
                             }
                         },
                         Step::TxUpdate { cond, set, .. } => {
-                            let out = classify(self.e.tx_update(tx, T, cond.to_engine(), set.to_engine()), |n| *n);
-                            ctx.event(&format!("{i} {who} update {cond:?} {set:?} -> {out:?}"));
+                            let out = classify(self.e.tx_update(tx, tname, cond.to_engine(), set.to_engine()), |n| *n);
+                            ctx.event(&format!("{i} {who} update {tshow}{cond:?} {set:?} -> {out:?}"));
                             if matches!(out, Out::Conflict) {
                                 after = "conflict";
                             }
-                            if let Some(mut v) = self.judge_write(&who, mt, cond, &Kind::Update(set.clone()), &out) {
+                            if let Some(mut v) = self.judge_write(&who, mt, tb, cond, &Kind::Update(set.clone()), &out) {
                                 v.detail = format!("step {i}: {}", v.detail);
                                 return Ok(Some(v));
                             }
                             if let Out::Fail(kind, _) = &out {
-                                self.absorb_failed(i, &who, mt, tx, "update", *kind, Some(cond))?;
+                                self.absorb_failed(i, &who, mt, tx, tb, "update", *kind, Some(cond))?;
                                 after = "failed-stmt";
                             }
                         },
                         Step::TxDelete { cond, .. } => {
-                            let out = classify(self.e.tx_delete(tx, T, cond.to_engine()), |n| *n);
-                            ctx.event(&format!("{i} {who} delete {cond:?} -> {out:?}"));
+                            let out = classify(self.e.tx_delete(tx, tname, cond.to_engine()), |n| *n);
+                            ctx.event(&format!("{i} {who} delete {tshow}{cond:?} -> {out:?}"));
                             if matches!(out, Out::Conflict) {
                                 after = "conflict";
                             }
-                            if let Some(mut v) = self.judge_write(&who, mt, cond, &Kind::Delete, &out) {
+                            if let Some(mut v) = self.judge_write(&who, mt, tb, cond, &Kind::Delete, &out) {
                                 v.detail = format!("step {i}: {}", v.detail);
                                 return Ok(Some(v));
                             }
                             if let Out::Fail(kind, _) = &out {
-                                self.absorb_failed(i, &who, mt, tx, "delete", *kind, Some(cond))?;
+                                self.absorb_failed(i, &who, mt, tx, tb, "delete", *kind, Some(cond))?;
                                 after = "failed-stmt";
                             }
                         },
                         Step::TxSelect { cond, .. } => {
-                            let out = classify(self.e.tx_select(tx, T, cond.to_engine()), Vec::len);
-                            ctx.event(&format!("{i} {who} select {cond:?} -> {out:?}"));
+                            let out = classify(self.e.tx_select(tx, tname, cond.to_engine()), Vec::len);
+                            ctx.event(&format!("{i} {who} select {tshow}{cond:?} -> {out:?}"));
                             let limited = matches!(&out, Out::Fail(kind, _) if self.knob_set(*kind));
                             if !matches!(out, Out::Ok(_)) && !limited {
-                                return Ok(Some(viol("live-tx-rejected:select", format!("step {i}: {who} tx_select {cond:?} -> {out:?}"))));
+                                return Ok(Some(viol("live-tx-rejected:select", format!("step {i}: {who} tx_select {tname} {cond:?} -> {out:?}"))));
                             }
                         },
                         Step::Commit { .. } => {
@@ -975,6 +1224,9 @@ impl<'a> StmtRun<'a> {
                             if !self.m.txs[mt].wrote.is_empty() {
                                 ctx.probe("commit_with_writes");
                             }
+                            if self.span(mt).0 {
+                                ctx.probe("commit_spans_tables");
+                            }
                             suffix = self.end_suffix(mt);
                             if !self.m.txs[mt].failed.is_empty() {
                                 ctx.probe("commit_after_failed_stmt");
@@ -985,8 +1237,9 @@ impl<'a> StmtRun<'a> {
                         },
                         _ => {
                             let touched_index = self.m.txs[mt].wrote.iter().any(|id| {
-                                self.m.hist[id].iter().any(|e| e.tx == mt && !matches!(&e.eff, Eff::Set(s) if !s.touches_index()))
+                                self.m.hist[id].iter().any(|e| e.tx == mt && !matches!(&e.eff, Eff::Set(s) if !s.touches_index(&self.specs[id.0 as usize])))
                             });
+                            let (spans, spans_diff) = self.span(mt);
                             let overl = self.m.overlapped(mt);
                             let out = classify(self.e.rollback(tx), |_| 0);
                             ctx.event(&format!("{i} rollback {who} -> {out:?}"));
@@ -1008,6 +1261,13 @@ impl<'a> StmtRun<'a> {
                             if touched_index {
                                 ctx.probe("rollback_touched_indexed_column");
                             }
+                            if spans {
+                                ctx.probe("rollback_spans_tables");
+                                ctx.fp("rollback-spans-tables");
+                            }
+                            if spans_diff {
+                                ctx.probe("rollback_spans_differently_indexed_column");
+                            }
                             suffix = self.end_suffix(mt);
                             if overl {
                                 ctx.probe("rollback_after_overlap");
@@ -1023,36 +1283,36 @@ impl<'a> StmtRun<'a> {
                     self.stmts_done += 1;
                 }
             },
-            Step::Insert { v } => {
-                match self.e.insert(T, vals_map(v)) {
+            Step::Insert { v, .. } => {
+                match self.e.insert(tname, vals_map(v)) {
                     Ok(id) => {
-                        ctx.event(&format!("{i} auto insert {v:?} -> #{id}"));
-                        if self.m.hist.contains_key(&id) {
-                            return Ok(Some(viol("row-id-reused", format!("step {i}: insert returned row id #{id} which already identifies another row"))));
+                        ctx.event(&format!("{i} auto insert {tshow}{v:?} -> #{id}"));
+                        if self.m.hist.contains_key(&(tb, id)) {
+                            return Ok(Some(viol("row-id-reused", format!("step {i}: insert into {tname} returned row id #{id} which already identifies another row"))));
                         }
                         let mt = self.m.begin();
-                        self.m.push(id, mt, Eff::Ins(*v));
+                        self.m.push((tb, id), mt, Eff::Ins(*v));
                         self.m.end(mt, St::Committed);
                     },
                     // "all-or-nothing": the engine runs the statement as a one-statement
                     // transaction and rolls it back on error, so nothing of it may remain
                     Err(e) => match classify::<u64>(Err(e), |_| 1) {
                         Out::Fail(kind, _) if self.knob_set(kind) => {
-                            ctx.event(&format!("{i} auto insert {v:?} -> Fail({kind:?})"));
+                            ctx.event(&format!("{i} auto insert {tshow}{v:?} -> Fail({kind:?})"));
                             ctx.probe("failed_auto_stmt");
                             suffix = "+after-failed-insert".into();
                         },
-                        out => return Ok(Some(viol("unexpected-error:insert", format!("step {i}: insert {v:?}: {out:?}")))),
+                        out => return Ok(Some(viol("unexpected-error:insert", format!("step {i}: insert {tname} {v:?}: {out:?}")))),
                     },
                 }
                 after = "auto-stmt";
             },
-            Step::Update { cond, set } => {
-                let out = classify(self.e.update(T, cond.to_engine(), set.to_engine()), |n| *n);
-                ctx.event(&format!("{i} auto update {cond:?} {set:?} -> {out:?}"));
+            Step::Update { cond, set, .. } => {
+                let out = classify(self.e.update(tname, cond.to_engine(), set.to_engine()), |n| *n);
+                ctx.event(&format!("{i} auto update {tshow}{cond:?} {set:?} -> {out:?}"));
                 after = if matches!(out, Out::Conflict) { "conflict" } else { "auto-stmt" };
                 let mt = self.m.begin();
-                let r = self.judge_write("auto-commit", mt, cond, &Kind::Update(set.clone()), &out);
+                let r = self.judge_write("auto-commit", mt, tb, cond, &Kind::Update(set.clone()), &out);
                 self.m.end(mt, if matches!(out, Out::Ok(_)) { St::Committed } else { St::RolledBack });
                 if matches!(out, Out::Fail(..)) {
                     ctx.probe("failed_auto_stmt");
@@ -1063,12 +1323,12 @@ impl<'a> StmtRun<'a> {
                     return Ok(Some(v));
                 }
             },
-            Step::Delete { cond } => {
-                let out = classify(self.e.delete_rows(T, cond.to_engine()), |n| *n);
-                ctx.event(&format!("{i} auto delete {cond:?} -> {out:?}"));
+            Step::Delete { cond, .. } => {
+                let out = classify(self.e.delete_rows(tname, cond.to_engine()), |n| *n);
+                ctx.event(&format!("{i} auto delete {tshow}{cond:?} -> {out:?}"));
                 after = if matches!(out, Out::Conflict) { "conflict" } else { "auto-stmt" };
                 let mt = self.m.begin();
-                let r = self.judge_write("auto-commit", mt, cond, &Kind::Delete, &out);
+                let r = self.judge_write("auto-commit", mt, tb, cond, &Kind::Delete, &out);
                 self.m.end(mt, if matches!(out, Out::Ok(_)) { St::Committed } else { St::RolledBack });
                 if matches!(out, Out::Fail(..)) {
                     ctx.probe("failed_auto_stmt");
@@ -1117,8 +1377,8 @@ impl<'a> StmtRun<'a> {
 
 #[derive(Clone, Debug)]
 enum Obs {
-    Stmt { th: usize, si: usize, out: String, effs: Vec<(u64, Eff)> },
-    End { th: usize, committed: bool, out: String, wrote_now: BTreeMap<u64, Option<Vals>> },
+    Stmt { th: usize, si: usize, out: String, effs: Vec<(Rid, Eff)> },
+    End { th: usize, committed: bool, out: String, wrote_now: BTreeMap<Rid, Option<Vals>> },
 }
 
 struct Shared {
@@ -1128,22 +1388,44 @@ struct Shared {
     broken: Option<String>,
 }
 
+/// statement text for the event log (single-table cases: the text of the older replay files)
+fn show_stmt(s: &TStmt, ntab: usize) -> String {
+    if ntab > 1 {
+        return format!("{s:?}");
+    }
+    match s {
+        TStmt::Insert { v, .. } => format!("Insert {{ v: {v:?} }}"),
+        TStmt::Update { cond, set, .. } => format!("Update {{ cond: {cond:?}, set: {set:?} }}"),
+        TStmt::Delete { cond, .. } => format!("Delete {{ cond: {cond:?} }}"),
+    }
+}
+
 fn tag_of(th: usize, si: usize) -> i64 {
     100 + (th as i64) * 10 + si as i64
 }
 
 fn run_threads_case(case: &Case, ctx: &Arc<RunCtx>) -> Result<(Option<Violation>, bool), String> {
     let e = Arc::new(mk_engine(case)?);
-    let mut init: BTreeMap<u64, Vals> = BTreeMap::new();
-    for v in &case.init {
-        let id = e.insert(T, vals_map(v)).map_err(|x| format!("init insert: {x}"))?;
-        init.insert(id, *v);
+    let specs = case.specs();
+    let mut init: BTreeMap<Rid, Vals> = BTreeMap::new();
+    for (tb, rows) in std::iter::once(&case.init).chain(case.init_more.iter()).enumerate().take(specs.len()) {
+        for v in rows {
+            let id = e.insert(TABLES[tb], vals_map(v)).map_err(|x| format!("init insert: {x}"))?;
+            init.insert((tb as u8, id), *v);
+        }
     }
+    let ntab = specs.len();
     let shared = Arc::new(Mutex::new(Shared { obs: Vec::new(), broken: None }));
     let mut bodies: Vec<Body> = Vec::new();
     for (th, prog) in case.progs.iter().enumerate() {
         let e = e.clone();
-        let prog = prog.clone();
+        let mut prog = prog.clone();
+        for s in &mut prog.stmts {
+            let (TStmt::Insert { tb, .. } | TStmt::Update { tb, .. } | TStmt::Delete { tb, .. }) = s;
+            if *tb as usize >= ntab {
+                *tb = 0;
+            }
+        }
         let shared = shared.clone();
         bodies.push(Box::new(move || {
             // every schedule point this thread reaches, in order: the observation windows
@@ -1164,44 +1446,50 @@ fn run_threads_case(case: &Case, ctx: &Arc<RunCtx>) -> Result<(Option<Violation>
             sched::yield_point("c09.start");
             let auto = prog.kind == 2;
             let tx = if auto { 0 } else { e.begin_transaction() };
-            let mut deleted: BTreeSet<u64> = BTreeSet::new();
-            let mut wrote: BTreeSet<u64> = BTreeSet::new();
+            let mut deleted: BTreeSet<Rid> = BTreeSet::new();
+            let mut wrote: BTreeSet<Rid> = BTreeSet::new();
             for (si, s) in prog.stmts.iter().enumerate() {
                 sched::yield_point("c09.stmt");
                 let tag = tag_of(th, si);
-                let mut effs: Vec<(u64, Eff)> = Vec::new();
+                let mut effs: Vec<(Rid, Eff)> = Vec::new();
                 let out;
                 match s {
-                    TStmt::Insert { v } => {
+                    TStmt::Insert { tb, v } => {
+                        let t = TABLES[*tb as usize];
                         let mut v = *v;
                         v[2] = tag;
-                        let r = if auto { e.insert(T, vals_map(&v)) } else { e.tx_insert(tx, T, vals_map(&v)) };
+                        let r = if auto { e.insert(t, vals_map(&v)) } else { e.tx_insert(tx, t, vals_map(&v)) };
                         out = match r {
                             Ok(id) => {
-                                effs.push((id, Eff::Ins(v)));
+                                effs.push(((*tb, id), Eff::Ins(v)));
                                 format!("Ok(#{id})")
                             },
                             Err(x) => format!("Err({})", strip_ids(&x.to_string())),
                         };
                     },
-                    TStmt::Update { cond, set } => {
+                    TStmt::Update { tb, cond, set } => {
+                        let t = TABLES[*tb as usize];
                         let mut set = set.clone();
                         set.c = Some(tag);
-                        let r = if auto { e.update(T, cond.to_engine(), set.to_engine()) } else { e.tx_update(tx, T, cond.to_engine(), set.to_engine()) };
+                        let r = if auto { e.update(t, cond.to_engine(), set.to_engine()) } else { e.tx_update(tx, t, cond.to_engine(), set.to_engine()) };
                         out = format!("{:?}", classify(r, |n| *n));
                         // the rows carrying this statement's tag are the rows it changed
-                        // (no schedule point between the last change and this read)
+                        // (no schedule point between the last change and this read; read by
+                        // scan, never through an index c may have)
                         let m0 = mark();
-                        if let Ok(rows) = e.select(T, Condition::Eq("c".into(), Value::Int(tag))) {
+                        if let Ok(rows) = e.select(t, Condition::True) {
                             for r in rows {
-                                effs.push((r.id, Eff::Set(set.clone())));
+                                if r.get("c") == Some(&Value::Int(tag)) {
+                                    effs.push(((*tb, r.id), Eff::Set(set.clone())));
+                                }
                             }
                         }
                         if mark() != m0 {
                             broken("tag read after update", m0);
                         }
                     },
-                    TStmt::Delete { cond } => {
+                    TStmt::Delete { tb, cond } => {
+                        let t = TABLES[*tb as usize];
                         if auto {
                             out = "skipped".to_string();
                         } else {
@@ -1209,13 +1497,13 @@ fn run_threads_case(case: &Case, ctx: &Arc<RunCtx>) -> Result<(Option<Violation>
                             // read and the scan inside tx_delete)
                             let m0 = mark();
                             let before: Vec<u64> = e
-                                .select(T, Condition::True)
+                                .select(t, Condition::True)
                                 .map(|v| v.iter().filter(|r| row_vals(r).map(|x| cond.eval(r.id, &x)).unwrap_or(false)).map(|r| r.id).collect())
                                 .unwrap_or_default();
                             if mark() != m0 {
                                 broken("table read before delete", m0);
                             }
-                            let r = e.tx_delete(tx, T, cond.to_engine());
+                            let r = e.tx_delete(tx, t, cond.to_engine());
                             // the first schedule point inside tx_delete comes after its scan
                             if sites.borrow().get(m0).is_some_and(|s| *s != "rel.tx_delete.after_scan") {
                                 broken("delete scan", m0);
@@ -1224,14 +1512,14 @@ fn run_threads_case(case: &Case, ctx: &Arc<RunCtx>) -> Result<(Option<Violation>
                             let m1 = mark();
                             // rows the scan matched, that are gone now and whose lock this
                             // transaction holds are the rows it deleted
-                            let alive: BTreeSet<u64> = e.select(T, Condition::True).map(|v| v.iter().map(|r| r.id).collect()).unwrap_or_default();
+                            let alive: BTreeSet<u64> = e.select(t, Condition::True).map(|v| v.iter().map(|r| r.id).collect()).unwrap_or_default();
                             if mark() != m1 {
                                 broken("table read after delete", m1);
                             }
                             for id in before {
-                                if e.tx_manager().row_lock_holder(T, id) == Some(tx) && !alive.contains(&id) && !deleted.contains(&id) {
-                                    deleted.insert(id);
-                                    effs.push((id, Eff::Del));
+                                if e.tx_manager().row_lock_holder(t, id) == Some(tx) && !alive.contains(&id) && !deleted.contains(&(*tb, id)) {
+                                    deleted.insert((*tb, id));
+                                    effs.push(((*tb, id), Eff::Del));
                                 }
                             }
                         }
@@ -1251,10 +1539,13 @@ fn run_threads_case(case: &Case, ctx: &Arc<RunCtx>) -> Result<(Option<Violation>
                 // point after the locks were released
                 let mut wrote_now = BTreeMap::new();
                 let m0 = mark();
-                if let Ok(rows) = e.select(T, Condition::True) {
-                    let m: BTreeMap<u64, Vals> = rows.iter().filter_map(|r| row_vals(r).ok().map(|v| (r.id, v))).collect();
-                    for id in &wrote {
-                        wrote_now.insert(*id, m.get(id).copied());
+                let wrote_tables: BTreeSet<u8> = wrote.iter().map(|id| id.0).collect();
+                for tb in wrote_tables {
+                    if let Ok(rows) = e.select(TABLES[tb as usize], Condition::True) {
+                        let m: BTreeMap<u64, Vals> = rows.iter().filter_map(|r| row_vals(r).ok().map(|v| (r.id, v))).collect();
+                        for id in wrote.iter().filter(|id| id.0 == tb) {
+                            wrote_now.insert(*id, m.get(&id.1).copied());
+                        }
                     }
                 }
                 if mark() != m0 {
@@ -1317,7 +1608,7 @@ fn run_threads_case(case: &Case, ctx: &Arc<RunCtx>) -> Result<(Option<Violation>
     for o in &obs {
         if let Obs::Stmt { th, si, out, .. } = o {
             if matches!(case.progs[*th].stmts[*si], TStmt::Insert { .. }) && out.starts_with("Err(Lock conflict") {
-                ctx.event(&format!("t{th} stmt{si} {:?} -> {out}", case.progs[*th].stmts[*si]));
+                ctx.event(&format!("t{th} stmt{si} {} -> {out}", show_stmt(&case.progs[*th].stmts[*si], ntab)));
                 return Ok((
                     Some(viol(
                         "unfinished-insert-row-locked",
@@ -1334,8 +1625,8 @@ fn run_threads_case(case: &Case, ctx: &Arc<RunCtx>) -> Result<(Option<Violation>
             Obs::Stmt { th, si, out, effs } => {
                 let auto = case.progs[*th].kind == 2;
                 let mt = if auto { m.begin() } else { th_tx[*th].unwrap() };
-                let ids: Vec<String> = effs.iter().map(|(id, e)| format!("#{id}:{}", e.name())).collect();
-                ctx.event(&format!("t{th} stmt{si} {:?} -> {out} rows [{}]", case.progs[*th].stmts[*si], ids.join(" ")));
+                let ids: Vec<String> = effs.iter().map(|(id, e)| format!("{}:{}", if ntab > 1 { rid(id) } else { format!("#{}", id.1) }, e.name())).collect();
+                ctx.event(&format!("t{th} stmt{si} {} -> {out} rows [{}]", show_stmt(&case.progs[*th].stmts[*si], ntab), ids.join(" ")));
                 if out == "Conflict" {
                     conflict_seen = true;
                     ctx.probe("lock_conflict_observed");
@@ -1354,7 +1645,7 @@ fn run_threads_case(case: &Case, ctx: &Arc<RunCtx>) -> Result<(Option<Violation>
                         return Ok((
                             Some(viol(
                                 format!("unfinished-insert-row-{}", eff.name()),
-                                format!("thread t{th} statement {si} {} row #{id}, which a tx_insert of another live transaction has put into the table but not locked yet (if that tx_insert then meets the lock, it fails with a lock conflict and removes the row)", eff.name()),
+                                format!("thread t{th} statement {si} {} row {}, which a tx_insert of another live transaction has put into the table but not locked yet (if that tx_insert then meets the lock, it fails with a lock conflict and removes the row)", eff.name(), rid(id)),
                             )),
                             true,
                         ));
@@ -1366,7 +1657,7 @@ fn run_threads_case(case: &Case, ctx: &Arc<RunCtx>) -> Result<(Option<Violation>
                                 return Ok((
                                     Some(viol(
                                         format!("two-live-writers:row-{first}-then-{}", eff.name()),
-                                        format!("thread t{th} statement {si} {} row #{id} while the transaction that {first} it was still live, and neither got a lock conflict", eff.name()),
+                                        format!("thread t{th} statement {si} {} row {} while the transaction that {first} it was still live, and neither got a lock conflict", eff.name(), rid(id)),
                                     )),
                                     true,
                                 ));
@@ -1406,6 +1697,10 @@ fn run_threads_case(case: &Case, ctx: &Arc<RunCtx>) -> Result<(Option<Violation>
                 if !*committed && !wrote_now.is_empty() {
                     ctx.probe("rollback_with_writes");
                 }
+                if wrote_now.keys().map(|id| id.0).collect::<BTreeSet<u8>>().len() >= 2 {
+                    ctx.probe(if *committed { "thread_commit_spans_tables" } else { "thread_rollback_spans_tables" });
+                    ctx.fp("end-spans-tables");
+                }
                 // rows this transaction wrote, as they are the moment it ended
                 for (id, got) in wrote_now {
                     let want = m.value(*id);
@@ -1415,7 +1710,7 @@ fn run_threads_case(case: &Case, ctx: &Arc<RunCtx>) -> Result<(Option<Violation>
                         return Ok((
                             Some(viol(
                                 format!("state-mismatch:after-{what}:row{sfx}"),
-                                format!("thread t{th} {what}: row #{id} is {got:?}, expected {want:?} (the fold of the effects of all transactions not rolled back)"),
+                                format!("thread t{th} {what}: row {} is {got:?}, expected {want:?} (the fold of the effects of all transactions not rolled back)", rid(id)),
                             )),
                             true,
                         ));
@@ -1426,18 +1721,20 @@ fn run_threads_case(case: &Case, ctx: &Arc<RunCtx>) -> Result<(Option<Violation>
     }
     let _ = conflict_seen;
     ctx.event("quiescence");
-    let exp = m.visible();
-    if let Some((view, d)) = compare_views(&e, &exp, false)? {
+    // every tag a statement of this case may have written into c
+    let tags: Vec<i64> = case.progs.iter().enumerate().flat_map(|(th, p)| (0..p.stmts.len()).map(move |si| tag_of(th, si))).collect();
+    if let Some((view, d)) = compare_all(&e, &specs, &m, false, &tags)? {
         return Ok((Some(viol(format!("state-mismatch:at-quiescence:{view}"), d)), true));
     }
     // "the locks disappear when the first one ends"
     if e.tx_manager().active_lock_count() != 0 {
         return Ok((Some(viol("lock-residue:at-quiescence", format!("active_lock_count()={} after every transaction ended", e.tx_manager().active_lock_count()))), true));
     }
-    let max_id = m.hist.keys().next_back().copied().unwrap_or(0);
-    for id in 1..=max_id {
-        if e.tx_manager().is_row_locked(T, id) {
-            return Ok((Some(viol("lock-residue:is_row_locked:holder-ended-or-never-locked", format!("row #{id} still locked after every transaction ended"))), true));
+    for tb in 0..ntab as u8 {
+        for id in 1..=m.max_id(tb) {
+            if e.tx_manager().is_row_locked(TABLES[tb as usize], id) {
+                return Ok((Some(viol("lock-residue:is_row_locked:holder-ended-or-never-locked", format!("row {} still locked after every transaction ended", rid(&(tb, id))))), true));
+            }
         }
     }
     if e.active_transaction_count() != 0 {
@@ -1465,6 +1762,41 @@ fn gen_cond(rng: &mut Rng, max_id: u64) -> Cond {
         10..=12 => Cond::Id(rng.range(1, max_id.max(1))),
         _ => Cond::AEqBLe(rng.below(A_DOM as u64) as i64, rng.below(B_DOM as u64) as i64),
     }
+}
+
+/// conditions of the multi-table cases: also any comparison on any column
+fn gen_cond_any(rng: &mut Rng, max_id: u64) -> Cond {
+    if rng.chance(1, 3) {
+        let col = rng.below(3) as u8;
+        let dom = [A_DOM, B_DOM, C_DOM][col as usize] as u64;
+        let op = *rng.pick(&[Op::Eq, Op::Eq, Op::Lt, Op::Le, Op::Gt, Op::Ge]);
+        Cond::Col(col, op, rng.below(dom) as i64)
+    } else {
+        gen_cond(rng, max_id)
+    }
+}
+
+/// Index kinds of the tables of a multi-table case: every table differs from every
+/// earlier one in the kinds of at least one same-named column.
+fn gen_specs(rng: &mut Rng, ntab: usize, ordered_id: bool) -> Vec<TableSpec> {
+    let mut specs: Vec<TableSpec> = Vec::new();
+    for _ in 0..ntab {
+        let mut cols = [0u8; 3];
+        for _try in 0..8 {
+            for c in &mut cols {
+                *c = *rng.pick(&[0u8, 0, HASH, HASH, HASH, ORDERED, ORDERED, ORDERED, HASH | ORDERED]);
+            }
+            if specs.iter().all(|s| s.cols != cols) {
+                break;
+            }
+        }
+        if specs.iter().any(|s| s.cols == cols) {
+            cols[0] ^= HASH;
+        }
+        let id_index = if ordered_id { *rng.pick(&[0u8, 0, 1, 2, 3]) } else { *rng.pick(&[0u8, 0, 1]) };
+        specs.push(TableSpec { cols, id_index });
+    }
+    specs
 }
 
 fn gen_assign(rng: &mut Rng) -> Assign {
@@ -1498,23 +1830,33 @@ fn gen_advance(rng: &mut Rng, lock_s: u64, tx_s: u64) -> Step {
 }
 
 impl C09 {
-    fn gen_stmt_case(&self, rng: &mut Rng) -> Case {
+    /// `multi`: two or three tables with differently indexed same-named columns
+    /// (no extra draws otherwise: the single-table cases are those of the older seeds)
+    fn gen_stmt_case(&self, rng: &mut Rng, multi: bool) -> Case {
+        let ntab = if multi { *rng.pick(&[2usize, 2, 3]) } else { 1 };
+        let limit_btree = multi && rng.chance(2, 5);
+        let tables = if multi { gen_specs(rng, ntab, !limit_btree) } else { Vec::new() };
         let (lock_to_s, tx_to_s) = *rng.pick(&[(2u64, 5u64), (1, 3), (3, 3), (2, 9)]);
         let ntx = rng.range(2, 4) as u8;
-        let n_init = rng.range(2, 5) as usize;
+        let n_init = if multi { rng.range(2, 4) } else { rng.range(2, 5) } as usize;
         let init: Vec<Vals> = (0..n_init).map(|_| gen_vals(rng)).collect();
+        let init_more: Vec<Vec<Vals>> = (1..ntab).map(|_| (0..rng.range(1, 4)).map(|_| gen_vals(rng)).collect()).collect();
         let max_id = n_init as u64 + 3;
+        // table of a statement, condition of a statement
+        let gen_tb = |rng: &mut Rng| if multi { rng.below(ntab as u64) as u8 } else { 0 };
+        let gen_cond = |rng: &mut Rng, max_id: u64| if multi { gen_cond_any(rng, max_id) } else { gen_cond(rng, max_id) };
         // per-transaction programs
         let mut progs: Vec<Vec<Step>> = Vec::new();
         for t in 0..ntx {
             let mut p = vec![Step::Begin { t }];
             let n = rng.range(1, 5);
             for _ in 0..n {
+                let tb = gen_tb(rng);
                 p.push(match rng.below(10) {
-                    0..=1 => Step::TxInsert { t, v: gen_vals(rng) },
-                    2..=5 => Step::TxUpdate { t, cond: gen_cond(rng, max_id), set: gen_assign(rng) },
-                    6..=8 => Step::TxDelete { t, cond: gen_cond(rng, max_id) },
-                    _ => Step::TxSelect { t, cond: gen_cond(rng, max_id) },
+                    0..=1 => Step::TxInsert { t, tb, v: gen_vals(rng) },
+                    2..=5 => Step::TxUpdate { t, tb, cond: gen_cond(rng, max_id), set: gen_assign(rng) },
+                    6..=8 => Step::TxDelete { t, tb, cond: gen_cond(rng, max_id) },
+                    _ => Step::TxSelect { t, tb, cond: gen_cond(rng, max_id) },
                 });
             }
             match rng.below(10) {
@@ -1524,12 +1866,13 @@ impl C09 {
             }
             // use after finish
             if rng.chance(1, 3) {
+                let tb = gen_tb(rng);
                 p.push(match rng.below(5) {
-                    0 => Step::TxUpdate { t, cond: Cond::True, set: gen_assign(rng) },
-                    1 => Step::TxDelete { t, cond: Cond::True },
+                    0 => Step::TxUpdate { t, tb, cond: Cond::True, set: gen_assign(rng) },
+                    1 => Step::TxDelete { t, tb, cond: Cond::True },
                     2 => Step::Commit { t },
                     3 => Step::Rollback { t },
-                    _ => Step::TxInsert { t, v: gen_vals(rng) },
+                    _ => Step::TxInsert { t, tb, v: gen_vals(rng) },
                 });
             }
             progs.push(p);
@@ -1550,9 +1893,9 @@ impl C09 {
             steps.push(progs[k][pos[k]].clone());
             pos[k] += 1;
             match rng.below(12) {
-                0 => steps.push(Step::Insert { v: gen_vals(rng) }),
-                1 => steps.push(Step::Update { cond: gen_cond(rng, max_id), set: gen_assign(rng) }),
-                2 => steps.push(Step::Delete { cond: gen_cond(rng, max_id) }),
+                0 => steps.push(Step::Insert { tb: gen_tb(rng), v: gen_vals(rng) }),
+                1 => steps.push(Step::Update { tb: gen_tb(rng), cond: gen_cond(rng, max_id), set: gen_assign(rng) }),
+                2 => steps.push(Step::Delete { tb: gen_tb(rng), cond: gen_cond(rng, max_id) }),
                 3..=4 if advances < 28 => {
                     advances += 1;
                     steps.push(gen_advance(rng, lock_to_s, tx_to_s));
@@ -1566,17 +1909,37 @@ impl C09 {
         // engine configuration knobs (drawn last: the statement lists of older seeds stay the
         // same). Ordered-index limit: exactly as many keys as the initial rows need, or one or
         // two more, so that later statements that bring a new key fail half-way.
+        if multi {
+            // the limit counts the distinct keys of all ordered indexes of the engine together
+            let mut keys = 0u64;
+            for (tb, spec) in tables.iter().enumerate() {
+                let rows = if tb == 0 { &init } else { &init_more[tb - 1] };
+                for col in 0..3 {
+                    if spec.cols[col] & ORDERED != 0 {
+                        keys += rows.iter().map(|v| v[col]).collect::<BTreeSet<_>>().len() as u64;
+                    }
+                }
+            }
+            let max_btree = if limit_btree { Some(keys + rng.below(3)) } else { None };
+            let max_cond_depth = if rng.chance(1, 8) { Some(0) } else { None };
+            return Case { mode: Mode::Stmt, lock_to_s, tx_to_s, init, steps, progs: Vec::new(), schedule: Vec::new(), lenient_insert: false, max_btree, max_cond_depth, id_index: 0, tables, init_more };
+        }
         let distinct_b = init.iter().map(|v| v[1]).collect::<BTreeSet<_>>().len() as u64;
         let max_btree = if rng.chance(2, 5) { Some(distinct_b + rng.below(3)) } else { None };
         let max_cond_depth = if rng.chance(1, 8) { Some(0) } else { None };
-        Case { mode: Mode::Stmt, lock_to_s, tx_to_s, init, steps, progs: Vec::new(), schedule: Vec::new(), lenient_insert: false, max_btree, max_cond_depth, id_index: if max_btree.is_some() { *rng.pick(&[0u8, 0, 1]) } else { *rng.pick(&[0u8, 0, 1, 2, 3]) } }
+        Case { mode: Mode::Stmt, lock_to_s, tx_to_s, init, steps, progs: Vec::new(), schedule: Vec::new(), lenient_insert: false, max_btree, max_cond_depth, id_index: if max_btree.is_some() { *rng.pick(&[0u8, 0, 1]) } else { *rng.pick(&[0u8, 0, 1, 2, 3]) }, tables, init_more }
     }
 
-    fn gen_thread_case(&self, rng: &mut Rng) -> Case {
+    fn gen_thread_case(&self, rng: &mut Rng, multi: bool) -> Case {
+        let ntab = if multi { *rng.pick(&[2usize, 2, 3]) } else { 1 };
+        let tables = if multi { gen_specs(rng, ntab, true) } else { Vec::new() };
         let nth = rng.range(2, 4) as usize;
-        let n_init = rng.range(2, 4) as usize;
+        let n_init = if multi { rng.range(2, 3) } else { rng.range(2, 4) } as usize;
         let init: Vec<Vals> = (0..n_init).map(|_| gen_vals(rng)).collect();
+        let init_more: Vec<Vec<Vals>> = (1..ntab).map(|_| (0..rng.range(1, 3)).map(|_| gen_vals(rng)).collect()).collect();
         let max_id = n_init as u64 + 1;
+        let gen_tb = |rng: &mut Rng| if multi { rng.below(ntab as u64) as u8 } else { 0 };
+        let gen_cond = |rng: &mut Rng, max_id: u64| if multi { gen_cond_any(rng, max_id) } else { gen_cond(rng, max_id) };
         let mut progs = Vec::new();
         for _ in 0..nth {
             let kind = match rng.below(10) {
@@ -1587,11 +1950,12 @@ impl C09 {
             let n = rng.range(1, 3);
             let mut stmts = Vec::new();
             for _ in 0..n {
+                let tb = gen_tb(rng);
                 stmts.push(match rng.below(10) {
-                    0 => TStmt::Insert { v: gen_vals(rng) },
-                    1..=6 => TStmt::Update { cond: gen_cond(rng, max_id), set: gen_assign(rng) },
-                    _ if kind != 2 => TStmt::Delete { cond: gen_cond(rng, max_id) },
-                    _ => TStmt::Update { cond: gen_cond(rng, max_id), set: gen_assign(rng) },
+                    0 => TStmt::Insert { tb, v: gen_vals(rng) },
+                    1..=6 => TStmt::Update { tb, cond: gen_cond(rng, max_id), set: gen_assign(rng) },
+                    _ if kind != 2 => TStmt::Delete { tb, cond: gen_cond(rng, max_id) },
+                    _ => TStmt::Update { tb, cond: gen_cond(rng, max_id), set: gen_assign(rng) },
                 });
             }
             progs.push(Prog { kind, stmts });
@@ -1600,7 +1964,7 @@ impl C09 {
         // the lock-table acquisitions (rel.lock) are schedule points too: longer schedules
         let slen = rng.range(32, 192) as usize;
         let schedule = sched::gen_schedule(rng, slen, stick);
-        Case { mode: Mode::Threads, lock_to_s: 30, tx_to_s: 60, init, steps: Vec::new(), progs, schedule, lenient_insert: false, max_btree: None, max_cond_depth: None, id_index: *rng.pick(&[0u8, 0, 1, 2, 3]) }
+        Case { mode: Mode::Threads, lock_to_s: 30, tx_to_s: 60, init, steps: Vec::new(), progs, schedule, lenient_insert: false, max_btree: None, max_cond_depth: None, id_index: if multi { 0 } else { *rng.pick(&[0u8, 0, 1, 2, 3]) }, tables, init_more }
     }
 }
 
@@ -1619,10 +1983,12 @@ impl Scenario for C09 {
         }
     }
     fn generate(&self, rng: &mut Rng, _tier: Tier, index: u64) -> Case {
+        // every second case of each layer spans two or three tables
+        let multi = (index / 5) % 2 == 1;
         if index % 5 < 3 {
-            self.gen_stmt_case(rng)
+            self.gen_stmt_case(rng, multi)
         } else {
-            self.gen_thread_case(rng)
+            self.gen_thread_case(rng, multi)
         }
     }
 
@@ -1643,7 +2009,7 @@ impl Scenario for C09 {
                 let mut m = Model::default();
                 m.lock_to_ms = case.lock_to_s * 1000;
                 m.tx_to_ms = case.tx_to_s * 1000;
-                let mut r = StmtRun { ctx, case, e, m, slots: BTreeMap::new(), stmts_done: 0 };
+                let mut r = StmtRun { ctx, case, e, specs: case.specs(), m, slots: BTreeMap::new(), stmts_done: 0 };
                 match r.run() {
                     Ok(v) => out.violation = v,
                     Err(x) => out.harness_error = Some(x),
@@ -1666,6 +2032,37 @@ impl Scenario for C09 {
 
     fn shrink(&self, case: &Case) -> Vec<Case> {
         let mut v = Vec::new();
+        // fewer tables (statements on a dropped table act on table 0), fewer rows in
+        // the further tables, fewer indexes
+        if case.tables.len() > 1 {
+            let mut c = case.clone();
+            c.tables.pop();
+            c.init_more.truncate(c.tables.len() - 1);
+            v.push(c);
+        }
+        for (k, rows) in case.init_more.iter().enumerate() {
+            for r in drop_chunks(rows) {
+                let mut c = case.clone();
+                c.init_more[k] = r;
+                v.push(c);
+            }
+        }
+        for (k, spec) in case.tables.iter().enumerate() {
+            if spec.id_index != 0 {
+                let mut c = case.clone();
+                c.tables[k].id_index = 0;
+                v.push(c);
+            }
+            for col in 0..3 {
+                for bit in [HASH, ORDERED] {
+                    if spec.cols[col] & bit != 0 {
+                        let mut c = case.clone();
+                        c.tables[k].cols[col] &= !bit;
+                        v.push(c);
+                    }
+                }
+            }
+        }
         match case.mode {
             Mode::Stmt => {
                 if case.max_cond_depth.is_some() {
@@ -1691,14 +2088,14 @@ impl Scenario for C09 {
                 for (i, st) in case.steps.iter().enumerate() {
                     // simpler statements
                     let simpler: Option<Step> = match st {
-                        Step::TxUpdate { t, cond, set } if set.a.is_some() as u8 + set.b.is_some() as u8 + set.c.is_some() as u8 > 1 => {
+                        Step::TxUpdate { t, tb, cond, set } if set.a.is_some() as u8 + set.b.is_some() as u8 + set.c.is_some() as u8 > 1 => {
                             let mut s = set.clone();
                             if s.c.is_some() {
                                 s.c = None;
                             } else {
                                 s.b = None;
                             }
-                            Some(Step::TxUpdate { t: *t, cond: cond.clone(), set: s })
+                            Some(Step::TxUpdate { t: *t, tb: *tb, cond: cond.clone(), set: s })
                         },
                         Step::Advance { ms } if *ms > 1000 && *ms % 1000 != 1 => Some(Step::Advance { ms: (*ms / 1000) * 1000 + 1 }),
                         _ => None,
@@ -1755,12 +2152,12 @@ impl Scenario for C09 {
                 }
                 for (i, p) in case.progs.iter().enumerate() {
                     for (j, s) in p.stmts.iter().enumerate() {
-                        if let TStmt::Update { cond, set } = s {
+                        if let TStmt::Update { tb, cond, set } = s {
                             if set.a.is_some() && set.b.is_some() {
                                 let mut c = case.clone();
                                 let mut s2 = set.clone();
                                 s2.b = None;
-                                c.progs[i].stmts[j] = TStmt::Update { cond: cond.clone(), set: s2 };
+                                c.progs[i].stmts[j] = TStmt::Update { tb: *tb, cond: cond.clone(), set: s2 };
                                 v.push(c);
                             }
                         }
@@ -1787,10 +2184,17 @@ impl Scenario for C09 {
             "rollback_after_failed_stmt",
             "commit_after_failed_stmt",
             "failed_auto_stmt",
+            // multi-table cases: a rolled-back transaction that updated / deleted, in two
+            // tables, a same-named column the tables index differently; commits and
+            // thread-layer transactions over two tables
+            "rollback_spans_differently_indexed_column",
+            "commit_spans_tables",
+            "thread_rollback_spans_tables",
+            "thread_commit_spans_tables",
         ]
     }
     fn rule(&self) -> String {
-        "A case is either (Stmt, 3 of 5) an explicit list of <=~45 steps over a 2-5 row table with a hash index on a and an ordered index on b: begin/tx_insert/tx_update/tx_delete/tx_select/commit/rollback of 2-4 transactions (<=5 statements each, some abandoned, some used after they finished), auto-commit insert/update/delete, clock advances (sub-second, past the row-lock timeout, past the transaction timeout) and the public clean-up calls, on an engine whose configuration is part of the case (2 of 5: max_btree_entries = number of distinct ordered keys of the initial rows + 0..2, so statements fail half-way; 1 of 8: max_condition_depth = 0, so nested conditions fail while scanning), judged after every step (after a half-way failed statement: table only until its transaction ends, then every view); or (Threads, 2 of 5) 2-4 threads running one transaction or auto-commit stream of 1-3 statements each under an explicit schedule with switch points between statements, at the rel.* hook sites inside tx_insert/tx_update/tx_delete/commit/rollback and in front of every acquisition of the row-lock tables and of the engine's index locks (rel.lock), judged when each transaction ends and at quiescence. Non-trivial: Stmt — at least two transactions begun and three transactional calls executed; Threads — at least one thread switch and two statements. Distinct: hash of (layer, sequence of commit/rollback/conflict/lock-takeover/tx-expiry/failed-statement events, per-site preemption counts).".into()
+        "Every second block of five cases is single-table (table t(a,b,c) with a hash index on a and an ordered index on b, optional _id indexes), the others have two or three tables t, u, w with the same columns whose index kinds (none / hash / ordered / both per column a, b, c and _id) are part of the case and differ between any two tables in at least one same-named column; every statement names its table, transactions and auto-commit statements span the tables, the model is per (table, row) and every view (scan, equality on every hash-indexed column, the four range comparisons on every ordered-indexed column, _id lookups and _id ranges) is compared for every table. A case is either (Stmt, 3 of 5) an explicit list of <=~45 steps over tables of 1-5 rows: begin/tx_insert/tx_update/tx_delete/tx_select/commit/rollback of 2-4 transactions (<=5 statements each, some abandoned, some used after they finished), auto-commit insert/update/delete, clock advances (sub-second, past the row-lock timeout, past the transaction timeout) and the public clean-up calls, on an engine whose configuration is part of the case (2 of 5: max_btree_entries = number of distinct ordered keys of the initial rows + 0..2, so statements fail half-way; 1 of 8: max_condition_depth = 0, so nested conditions fail while scanning), judged after every step (after a half-way failed statement: table only until its transaction ends, then every view); or (Threads, 2 of 5) 2-4 threads running one transaction or auto-commit stream of 1-3 statements each under an explicit schedule with switch points between statements, at the rel.* hook sites inside tx_insert/tx_update/tx_delete/commit/rollback and in front of every acquisition of the row-lock tables and of the engine's index locks (rel.lock), judged when each transaction ends and at quiescence. Non-trivial: Stmt — at least two transactions begun and three transactional calls executed; Threads — at least one thread switch and two statements. Distinct: hash of (layer, sequence of commit/rollback/conflict/lock-takeover/tx-expiry/failed-statement events, per-site preemption counts).".into()
     }
     fn components(&self) -> Json {
         json!({
@@ -1809,6 +2213,8 @@ impl Scenario for C09 {
             "a row inserted by a live transaction counts as a row that transaction has modified".into(),
             "a statement that returns ResultTooLarge / ConditionTooDeep because of the configured limits is a failed statement: its immediate effects are observed, not judged; the end of its transaction (rollback: exactly the state without the transaction; commit: every index view agrees with the table) and a failed auto-commit statement (nothing may remain) are judged".into(),
             "engine limits are configured only in the Stmt layer; the Threads layer runs with the default configuration".into(),
+            "all tables have the columns (a, b, c) of type INT; row ids are per table; max_btree_entries counts the keys of all ordered indexes of the engine together (established from the code)".into(),
+            "only queries the engine answers through an index (equality on a hash-indexed column, range on an ordered-indexed column, _id) and the full scan are compared; other conditions are scans with a filter".into(),
             "Threads layer: the rel.lock sites cover RowLockManager's tables and the engine's index / ordered-index / DDL locks (relational_engine::sync_compat); DashMap shards and the store's own locks are not schedule points. Each thread body checks that its observation reads contain no schedule point (harness error otherwise)".into(),
         ]
     }
